@@ -97,7 +97,10 @@ def build_rmv(case):
                 getattr(keep, SEL_METHOD[s])()
             _ = (2 * keep).error
     opts = {"etype": case["etype"]} if case.get("etype") else {}
-    a = sl.build(["repeated", case["xs"], case["errs"], case.get("container", "list"), opts])
+    held = []
+    a = sl.build(["repeated", case["xs"], case["errs"], case.get("container", "list"), opts], held)
+    if case.get("aliasing"):
+        sl.mutate_inputs(held)                      # the caller's own list / array is modified after the recording
     if case.get("prop_first"):
         d = fx(case["k"]) * a + fx(case["c"])
         _ = d.value, d.error, str(d)
@@ -128,12 +131,29 @@ def case_offsets(case):
     return [fx(h) for h in case["offsets"]] if case.get("offsets") else list(sl.DEFAULT_OFFSETS)
 
 
+def build_pair(case):
+    """the two repeated measurements of a pair case; aliasing "buffer": both are recorded, one after the other, from
+    ONE re-used float64 numpy buffer (equal lengths only); "mutate": the caller's containers are modified afterwards"""
+    import numpy as np
+    held = []
+    al = case.get("aliasing")
+    if al == "buffer" and len(case["xs"]) == len(case["ys"]):
+        buf = np.empty(len(case["xs"]))
+        a = sl.build(["repeated", case["xs"], None, "ndarray", {"buffer": buf}], held)
+        b = sl.build(["repeated", case["ys"], None, "ndarray", {"buffer": buf}], held)
+    else:
+        a = sl.build(["repeated", case["xs"], None, case.get("container", "list")], held)
+        b = sl.build(["repeated", case["ys"], None, case.get("container_b", "list")], held)
+    if al:
+        sl.mutate_inputs(held)
+    return a, b
+
+
 def run_pair(case):
     """-> ["accepted", cov, corr, cov_ba, corr_ba] | ["rejected", exception name]"""
     import qexpy as q
     q.reset_correlations()
-    a = sl.build(["repeated", case["xs"], None, case.get("container", "list")])
-    b = sl.build(["repeated", case["ys"], None, case.get("container_b", "list")])
+    a, b = build_pair(case)
     name = "set_covariance" if case["setter"] == "set_cov" else "set_correlation"
     try:
         with warnings.catch_warnings():
@@ -226,6 +246,8 @@ def gen_rmv(rng, pow2=False):
                           "sels": [rng.choice(["std", "ewm", "perr"]) for _ in range(rng.randrange(0, 3))]}
     if rng.random() < 0.3:
         case["prop_first"] = True                   # the object is used in a calculation before any of its statistics is read
+    if rng.random() < 0.3:
+        case["aliasing"] = "mutate"                 # readings / uncertainties containers modified in place after recording
     return case
 
 
@@ -274,6 +296,8 @@ def gen_pair(rng):
     case = {"xs": [hx(x) for x in xs], "ys": [hx(y) for y in ys], "setter": rng.choice(["set_cov", "set_corr"]),
             "form": rng.choice(["fn", "meth"]), "container": sl.pick_container(rng, xs, 0.35),
             "container_b": sl.pick_container(rng, ys, 0.35), "kind": kind}
+    if rng.random() < 0.4:
+        case["aliasing"] = rng.choice(["mutate", "buffer"])
     if k is not None:
         case["k"] = hx(k)
     if rng.random() < 0.3:
@@ -384,7 +408,7 @@ def correspondence(ctx):
                                        ("individual-with-zero" if any(fx(h) == 0 for h in e) else "individual"))
         res.count("rmv:n={}".format(len(case["xs"])))
         res.count("rmv:container:" + case.get("container", "list"))
-        for key in ("etype", "before", "prop_first"):
+        for key in ("etype", "before", "prop_first", "aliasing"):
             if case.get(key):
                 res.count("rmv:" + key + ((":" + case[key]) if key == "etype" else ""))
         sc = fx(case.get("scale", hx(1.0)))
@@ -423,6 +447,8 @@ def correspondence(ctx):
         res.evaluations += 1
         res.count("pair:{}:{}".format(case.get("kind", "?"), out[0] if out[0] == "accepted" else out[1]))
         res.count("pair:{}:{}".format(case["setter"], case["form"]))
+        if case.get("aliasing"):
+            res.count("pair:aliasing:" + case["aliasing"])
         if out[0] == "accepted":
             res.nontrivial.add(core.canonical_key("pair", case))
     for k in range(0, len(pruns), 150):
@@ -458,7 +484,8 @@ def correspondence(ctx):
                 "wide / exact-std; list, list of numpy scalars, mixed int / float list, or numpy array of dtype float64 / float32 / float16 / "
                 "int64 / int32 / int16 with values exactly representable in the dtype, biased to its precision limit such as 2^24 for "
                 "float32; whole cases scaled by 2^-30 ... 2^-50, 1e-9, 1e-12, 5.32e-7, 2^30, 1e6 and uncertainties scaled down by a "
-                "further 1e-9 ... 1e-12, also a single tiny one among ordinary ones (all comparisons relative); no, common, individual, partly zero or very unequal uncertainties): raw_data, "
+                "further 1e-9 ... 1e-12, also a single tiny one among ordinary ones (all comparisons relative); in 30-40% of the cases the caller's reading / uncertainty containers are "
+                "modified in place after the recording, or two arrays are recorded from one re-used numpy buffer; no, common, individual, partly zero or very unequal uncertainties): raw_data, "
                 "mean, std, error_on_mean, error_weighted_mean, propagated_error, value, error of the fresh object and after each "
                 "call of a random use_* history (0-9 calls), the warning flag, value / error of k*a+c computed afterwards by the "
                 "derivative method, and in every state the Monte Carlo samples of k*a+c and a*a retrieved with injected dyadic "
@@ -484,7 +511,8 @@ def correspondence(ctx):
 
 
 # ---- the property-level oracle (independent of the Coq model) ---------------------------------------------------
-ULP4 = 1 - 8 * 2.0 ** -53
+ULP4 = 1 - 1e-9         # exactly collinear readings: +-1 up to rounding (a shortfall of a few ulp times the conditioning
+                        # offset / spread is not a violation of the textbook definition; overshoot beyond 1 is)
 
 
 def errs_list(case):
@@ -687,7 +715,7 @@ def shrink_rmv(case):
     def fails(c):
         return check_rmv_oracle(c) is not None
     cur = dict(case)
-    for key in ("before", "prop_first", "etype"):
+    for key in ("before", "prop_first", "etype", "aliasing"):
         if key in cur:
             cand = {k_: v for k_, v in cur.items() if k_ != key}
             if fails(cand):
